@@ -429,6 +429,10 @@ def main(prop, tier):
         # against whose step relation every recorded step of the real code is validated below) is safe for EVERY size
         from . import proofs
         proofs.run_for("C02", run, with_apalache=True)
+    if prop == "C18":
+        # deductive leg: NamesAbs - prefix-freeness for every forest of maps and every universe of names
+        from . import proofs
+        proofs.run_for("C18", run, with_apalache=False)
     # ---- leg B: TLC-generated behaviours replayed on real objects
     num, depth = (400, 14) if thorough else (120, 10)
     sres, behs = tlc.simulate_behaviours("MemoryMap_MC", MC.format(items=5, als="{0, 1}", rich="FALSE"), num=num, depth=depth,
